@@ -137,8 +137,12 @@ def run_shard(desc, ctx):
     try:
         for k in range(desc['ndocs']):
             xml = (k % 3 == 0)
-            src, recs = gen_html.gen_doc(rng, xml=xml)
-            if len(src) > 700:
+            if k % 6 == 5:
+                src, recs = gen_html.gen_doc(rng, xml=xml, max_depth=rng.randint(6, 10), max_children=2, max_top=1)
+                ctx.ev('document:deep')
+            else:
+                src, recs = gen_html.gen_doc(rng, xml=xml)
+            if len(src) > 1000:
                 continue
             check_doc(src, recs, xml, ctx, hm)
     finally:
